@@ -696,14 +696,34 @@ def disagreement(case, impl, ans):
         return None
 
 
-def signature(clause, case):
+def relax_optional(a, b):
+    """`b` with every member made optional that is optional in the corresponding struct of `a` (the condition of the
+    recorded finding `optional-vs-mandatory`, repaired on the second type)"""
+    if a['t'] == b['t'] == 'array':
+        return dict(b, elem=relax_optional(a['elem'], b['elem']))
+    if a['t'] == b['t'] == 'tuple':
+        return dict(b, elems=[relax_optional(x, y) for x, y in zip(a['elems'], b['elems'])] + b['elems'][len(a['elems']):])
+    if a['t'] == b['t'] == 'struct':
+        ma = dict((k, m) for k, m in a['members'])
+        members = [[k, relax_optional(ma[k], m) if k in ma else m] for k, m in b['members']]
+        optional = list(b['optional']) + [k for k, _ in b['members'] if k in a['optional'] and k not in b['optional']]
+        return dict(b, members=members, optional=optional)
+    return b
+
+
+def signature(clause, case, impl=None):
     if case['k'] == 'compat':
-        sig = f"C03:{clause}:{case['a']['t']}->{case['b']['t']}"
         a, b = case['a'], case['b']
-        if clause == 'sound' and a['t'] == b['t'] == 'struct' and \
-                any(k in a['optional'] and k not in b['optional'] for k, _ in b['members']):
-            sig += ':optional-vs-mandatory'
-        return sig
+        if clause == 'sound' and impl is not None:
+            # attribution only: is every refused witness accepted once the optional members of the first type are optional
+            # in the second as well?  then the violation is the recorded finding, whatever the enclosing containers are
+            b2 = relax_optional(a, b)
+            refused = [w['v'] for w in impl['witnesses'] if not w['acc']]
+            if b2 != b and refused:
+                dt2 = dtcodec.tree_to_dt(b2)
+                if all(_outcome(lambda: dt2.validate(dtcodec.json_to_py(v)))[0] == 'ok' for v in refused):
+                    return 'C03:sound:struct->struct:optional-vs-mandatory'
+        return f"C03:{clause}:{a['t']}->{b['t']}"
     return f"C03:{case['k']}:{clause}:{case['tree']['t']}"
 
 
@@ -870,7 +890,7 @@ def run(ctx):
                     shrunk += 1
                     small = shrink(ctx, c, clause)
                 _, simpl = req_of(small)
-                res.violations.append({'sig': signature(clause, small), 'what': f'{clause}: ' + describe(small, simpl),
+                res.violations.append({'sig': signature(clause, small, simpl), 'what': f'{clause}: ' + describe(small, simpl),
                                        'case': small, 'detail': {'clause': clause, 'original': c if small is not c else None}})
     return res
 
